@@ -11,6 +11,10 @@ CLAIMED = {
    text='The real pruning kernels and TreeLikelihoodModel._call are executed symbolically for every enumerated topology / model shape; "log-likelihood == brute-force sum over all ancestral-state x rate-category assignments" becomes a polynomial identity that the SMT solver decides for ALL values of matrices, frequencies, proportions, weights, tip vectors, branch lengths, heights, clock and site rates. Bounded by topology size / states / categories, hence model checking of the enumerated configuration space, not a proof.',
    note='Reals not floats (the 1e-9 tolerance is outside the claim); K2 uses an uninterpreted row-stochastic P(t) in place of substitution_model.p_t (real p_t is C04, site rates C05); n<=4 quick / n<=5 thorough; S<=4; K<=2; one 4-column IUPAC alignment per n; datatype tables run concretely.',
    technique=TECH_A + '; polynomial identity per site pattern, lemma chaining for the log assembly'),
+ 'C05': dict(level=MC, ref='DESIGN.md §4 C05',
+   text='Constant / Invariant / Weibull(K) / Weibull(K)+invariant site models are built from JSON, their parameters replaced by symbols (shapes [] and [2]), and the real rates()/probabilities() code is executed symbolically. For every enumerated (model, K, mu, batch) configuration the solver proves for ALL shape > 0, pinv in [0,1), mu > 0: probabilities sum to one and are non-negative, rates are non-negative, the invariant class has rate literally 0 and probability pinv, and the probability-weighted mean rate equals mu (or 1) - also after every parameter has been updated (no stale cache).',
+   note='Reals not floats; pow(q_k, 1/shape) uninterpreted (positive); double constants that are the nearest float of a small rational (1/K, quantiles) are read as that rational; K in 1..4 quick, 1..6,8,16 thorough.',
+   technique=TECH_A + '; rational identities in uninterpreted pow atoms, division encoded through one shared inverse per denominator'),
  'C06': dict(level=MC, ref='DESIGN.md §4 C06',
    text='The real ratio / increment node-height transforms and time-tree models are executed on symbolic sampling times, ratios, root height and increments (shapes [] and [2]) for every enumerated rooted topology; orderings of the sampling times are path regions enumerated until the solver certifies coverage. Tip placement, parent>=child on every edge, branch length = parent-child, agreement with an independent recursion of the documented parameterisation, inv(forward(x))=x, forward(inv(y))=y and "device/dtype move keeps the parameterisation" are proved for all real parameter values per region.',
    note='Reals not floats; n<=4 quick (n<=5 thorough, sampled topologies at 5); sampling times injected after construction (date parsing runs concretely); cuda() exercised through cpu()/to(dtype); smooth-max (k>0) variant outside the claim.',
